@@ -367,6 +367,11 @@ pub fn run(args: &[String]) -> i32 {
         json!({"max_variants": maxv, "variant_kinds": 8, "first_variant_renames": 5, "later_variant_renames": 2, "third_variant": "1 identifier × 4 kinds × 2 renames (thorough only)", "rename_all": 9, "tag_content_pairs": keyn,
                "attr_styles": 2, "languages": 6, "configs": 2, "generics": "variant kind newtype(T)", "recursion": "variant kind newtype(Box<Self>)"}),
     );
+    let amb_k = if rep.thorough() { 3 } else { 2 };
+    super::common::ambient_family(&mut rep, "ambient_variations", amb_k, |ch| { gen(ch, 2, 6); }, |ch, acc| {
+        let c = gen(ch, 2, 6);
+        check_case(&c, &ch.choices(), acc);
+    });
     require_nonvacuous(&mut rep);
     rep.cov("rule", json!("full product of 1..N variants (identifier × kind × rename) × enum rename_all × (tag, content) pair × attribute style × language × configuration; each facet of the generated enum that carries a variant name, the tag key or the content key is compared with serde's value. non-trivial = expected wire name differs from the identifier, or non-default tag/content keys."));
     rep.assume("facets per backend: TS literal/member keys; Kotlin @SerialName + ctor string + content parameter; Swift CodingKeys, ContainerCodingKeys and every forKey: use; Scala serialName + content parameter; Go const values and the three json tag sites; Python Types member values, Literal defaults and attribute names");
